@@ -832,6 +832,13 @@ def apply_op(doc, st, op, out):
             new = new_lib_object(doc, st, r, lib)
             lst[op['pos'] % n] = new
             retarget(doc, lib, old, new)
+        elif how == 'replace_sameid' and n:
+            # a different object that carries the id of the one it replaces
+            old = lst[op['pos'] % n]
+            new = new_lib_object(doc, st, r, lib)
+            new.id = old.id
+            lst[op['pos'] % n] = new
+            retarget(doc, lib, old, new)
         elif how == 'permute':
             items = list(lst)
             r.shuffle(items)
@@ -910,6 +917,18 @@ def apply_op(doc, st, op, out):
                     d[i:i + 2] = numpy.array([[qlong(r) for _ in range(d.shape[1])]], dtype=numpy.float32)
                 elif mode == 'mul':
                     d *= r.choice([2.0, 0.5, -1.0, 4.0])
+                elif mode == 'nudge':
+                    # a few parts per million: above the seven digits that are written, far below
+                    # what a loose comparison would call a change
+                    k_ = r.random()
+                    f_ = numpy.float32(r.choice([0.999995, 1.000004, 0.999997]))
+                    if k_ < 0.4:
+                        d *= f_
+                    elif k_ < 0.7:
+                        x.data = (d * f_).astype(numpy.float32)        # a new array of the same size
+                    else:
+                        i_, j_ = r.randrange(d.shape[0]), r.randrange(d.shape[1])
+                        d[i_, j_] = d[i_, j_] * f_ if d[i_, j_] != 0 else numpy.float32(4e-9)
                 else:
                     d += r.choice([0.5, -0.25, 1.0, 8.0])
         elif how == 'prim_convert':
@@ -1043,6 +1062,32 @@ def apply_op(doc, st, op, out):
                           lambda: (r.choice(['TEX0', 'UV', 'CH1', 'CH2']), 'TEXCOORD',
                                    None if r.random() < 0.35 else str(r.randint(0, 3))))
         return
+    if t == 'failsave':
+        # a save()/write() that fails validation (caught by the user), then the cause is repaired: the
+        # document must go on being saved
+        from collada import camera
+        from collada.common import DaeError
+        how = op['how']
+        if how == 'camera' and doc.cameras:
+            c = doc.cameras[op['pos'] % len(doc.cameras)]
+            for a_ in ('xfov', 'yfov', 'xmag', 'ymag', 'aspect_ratio'):
+                if hasattr(c, a_):
+                    setattr(c, a_, None)
+            try:
+                doc.write(io.BytesIO()) if op.get('write') else doc.save()
+            except DaeError:
+                pass
+            for k_, v_ in camera_params(r, isinstance(c, camera.PerspectiveCamera)).items():
+                setattr(c, k_, v_)
+        else:
+            old_ = doc.scene
+            doc.scene = scene.Scene(st.fresh('stray'), [])
+            try:
+                doc.write(io.BytesIO()) if op.get('write') else doc.save()
+            except DaeError:
+                pass
+            doc.scene = old_
+        return
     if t == 'ref':
         # references in both document orders, and renames of what is referred to
         how = op['how']
@@ -1152,6 +1197,25 @@ def apply_op(doc, st, op, out):
             for p in e.params:
                 if isinstance(p, material.Surface) and r.random() < 0.2:
                     p.id = st.fresh('surfrenamed')
+            if r.random() < 0.35 and doc.images:
+                # parameter objects replaced by NEW Surface / Sampler2D objects with the same sid and
+                # other content (who referred to the old object refers to the new one)
+                for i_, p in enumerate(list(e.params)):
+                    if isinstance(p, material.Surface) and r.random() < 0.7:
+                        np_ = material.Surface(p.id, r.choice(list(doc.images)), r.choice(['A8R8G8B8', 'R8G8B8', 'R5G6B5']))
+                        e.params[i_] = np_
+                        for q_ in e.params:
+                            if isinstance(q_, material.Sampler2D) and q_.surface is p:
+                                q_.surface = np_
+                    elif isinstance(p, material.Sampler2D) and r.random() < 0.7:
+                        np_ = material.Sampler2D(p.id, p.surface, r.choice([None, 'LINEAR', 'NEAREST']), r.choice([None, 'LINEAR', 'NEAREST']))
+                        e.params[i_] = np_
+                        for prop in e.supported:
+                            v = getattr(e, prop)
+                            if isinstance(v, material.Map) and v.sampler is p:
+                                v.sampler = np_
+                        if e.bumpmap is not None and e.bumpmap.sampler is p:
+                            e.bumpmap.sampler = np_
             samplers = [p for p in e.params if isinstance(p, material.Sampler2D)]
             k = r.random()
             if e.bumpmap is not None and (k < 0.3 or not any(e.bumpmap.sampler is x for x in samplers)):
